@@ -17,7 +17,8 @@ type SegCase struct {
 	TMS     grid.Spec    `json:"tms"`
 	Deepest int          `json:"deepest"`
 	IDs     []int        `json:"ids"` // tile matrices compared
-	A, B    [2]float64   `json:"a_b"`
+	A       [2]float64   `json:"a"`
+	B       [2]float64   `json:"b"`
 	Points  [][2]float64 `json:"points"` // inserted (A and B are inserted too)
 }
 
